@@ -1308,9 +1308,95 @@ def extra_checks(rng, tier, cov):
             yield {'case': {'_op': 'matchall', 'seqs': [s], 'sub': sub, 'rf': 'both', '_rfkind': 'str', 'start': start, '_gap': gap, '_omit': []},
                    'impl': {'e': type(e).__name__}, 'spec': 'raised %r' % e, 'noshrink': True}
     cov['relational_checks'] = done
+    # gap transparency (theorem C13_gap_transparent_matchall on the real code): for plain words the result on the gapped
+    # sequence with gap=g, translated through the residue numbering, is the result on the degapped sequence with gap=None
+    gt = 0
+    for _ in range(120 if tier == 'quick' else 1200):
+        s = gen_seq(rng, 40)
+        g = rng.choice(['-', '-', '.', '-.', '-.~'])
+        rna = 'U' in s
+        sub = rng.choice(['start', 'stop', 'start', ''.join(rng.choice('ACGU' if rna else 'ACGT') for _ in range(rng.choice([1, 2, 3]))),
+                          'ATG|TGA', 'A|AT', 'AT|A', 'TAA|TA'])
+        rf = rng.choice(['fwd', 'bwd', 'both', 'both', None, 0, -1, (1, -2)])
+        d = ''.join(c for c in s if c not in g)
+
+        def rank(k):
+            return sum(1 for c in s[:k] if c not in g)
+        try:
+            a = [[m.span()[0], m.span()[1], m.group(), m.rf] for m in BioSeq(s).matchall(sub, rf=rf, gap=g)]
+            b = [[m.span()[0], m.span()[1], m.group(), m.rf] for m in BioSeq(d).matchall(sub, rf=rf, gap=None)]
+        except Exception as e:       # noqa
+            a, b = {'e': type(e).__name__}, None
+        gt += 1
+        if isinstance(a, dict) or [[rank(m[0]), rank(m[1]), ''.join(c for c in m[2] if c not in g), m[3]] for m in a] != b:
+            yield {'case': {'_op': 'matchall', 'seqs': [s], 'sub': sub, 'rf': rf if not isinstance(rf, tuple) else list(rf),
+                            '_rfkind': 'tuple' if isinstance(rf, tuple) else ('none' if rf is None else 'int' if isinstance(rf, int) else 'str'),
+                            'start': 0, '_gap': g, '_omit': []},
+                   'impl': a, 'spec': 'gap transparency: matchall(gap=%r) translated through the residue numbering %r differs from matchall(gap=None) '
+                                      'on the degapped sequence %r' % (g, a, b), 'noshrink': True}
+    cov['gap_transparency_checks'] = gt
+    # regexes outside the modelled subset (anchors, {m,n}, lazy quantifiers, ranges, escapes, look-ahead): CPython re on both
+    # strands is the oracle; with gap set the pattern promised by the docstring is built from a token stream of the text
+    outside = ['^ATG', 'TAA$', '^A.G$', 'A{2,3}', 'AT{1,2}G', 'A.*?G', 'A.+?G', '[A-C]TG', 'AT\\.', 'A(?=TG)', 'T(?!AA).', '(A)T\\1?G'.replace('\\1?', ''),
+              'AT{2}', '(?:ATG|TGA){1,2}', 'A[^-]G', 'ATG.{3}']
+    oc = 0
+    for _ in range(250 if tier == 'quick' else 2500):
+        s = gen_seq(rng, 40).replace('U', 'T')
+        sub = rng.choice(outside)
+        gap = rng.choice([None, None, '-', '-.'])
+        start = rng.choice([0, 0, 1, 3, max(0, len(s) - 3)])
+        rf = rng.choice(['fwd', 'bwd', 'both', 'both', None, 1, -3])
+        toks = re.findall(r'\\.|\[\^?\]?[^\]]*\]|\{[^}]*\}|\(\?[:=!]|.', sub, flags=re.S)
+        pat = sub if gap is None else ''.join(
+            t + ('[' + gap + ']*' if (len(t) == 1 and (t.isalpha() or t == '.') and i + 1 < len(toks) and len(toks[i + 1]) == 1
+                                     and (toks[i + 1].isalpha() or toks[i + 1] == '.')) else '') for i, t in enumerate(toks))
+        req = {'fwd': {0, 1, 2}, 'bwd': {-1, -2, -3}, 'both': {0, 1, 2, -1, -2, -3}}.get(rf, None if rf is None else {rf})
+        try:
+            exp = rx_expected(s, pat, req, start, gap)
+            got = [[m.span()[0], m.span()[1], m.group(), m.rf] for m in BioSeq(s).matchall(sub, rf=rf, start=start, gap=gap)]
+            pats = {m.re.pattern for m in BioSeq(s).matchall(sub, rf=rf, start=start, gap=gap)}
+        except Exception as e:       # noqa
+            exp, got, pats = None, {'e': type(e).__name__}, set()
+        oc += 1
+        if got != exp or (pats and pats != {pat}):
+            yield {'case': {'_op': 'matchall', 'seqs': [s], 'sub': sub, 'rf': rf, '_rfkind': 'none' if rf is None else 'int' if isinstance(rf, int) else 'str',
+                            'start': start, '_gap': gap, '_omit': []},
+                   'impl': got, 'spec': 'regex outside the model %r (gap=%r, pattern %r): CPython re gives %r, matchall %r' % (sub, gap, pat, exp, got),
+                   'noshrink': True}
+    cov['outside_regex_checks'] = oc
+    # groupby with two keys / the .d alias (tested only; the model has one key): nested insertion-ordered partition
+    from sugar import BioBasket
+    gc = 0
+    for _ in range(40 if tier == 'quick' else 400):
+        seqs = [gen_seq(rng, 30) for _ in range(rng.choice([1, 2, 3]))]
+        bb = BioBasket([BioSeq(t, id='g%d' % (i % 2)) for i, t in enumerate(seqs)])
+        keys = rng.choice(['seqid rf', ('seqid', 'rf'), 'rf seqid'])
+        try:
+            r = bb.matchall('stop', rf='both')
+            obs1 = [(m.seqid, m.rf, m.span(), m.group()) for m in r]
+            d = r.groupby(keys)
+            k2 = keys.split() if isinstance(keys, str) else list(keys)
+            exp = {}
+            for o, m in zip(obs1, r):
+                a, b = (o[0], o[1]) if k2[0] == 'seqid' else (o[1], o[0])
+                exp.setdefault(a, {}).setdefault(b, []).append(o)
+            got = {a: {b: [(m.seqid, m.rf, m.span(), m.group()) for m in v] for b, v in dd.items()} for a, dd in d.items()}
+            ok = got == exp and list(got) == list(exp) and all(list(got[a]) == list(exp[a]) for a in exp)
+            d1 = r.d
+            exp1 = {}
+            for o in obs1:
+                exp1.setdefault(o[0], []).append(o)
+            ok = ok and {a: [(m.seqid, m.rf, m.span(), m.group()) for m in v] for a, v in d1.items()} == exp1 and list(d1) == list(exp1)
+        except Exception as e:       # noqa
+            ok, got = False, {'e': type(e).__name__}
+        gc += 1
+        if not ok:
+            yield {'case': {'_op': 'b_matchall', 'seqs': seqs, 'sub': 'stop', 'rf': 'both', '_rfkind': 'str', 'start': 0, '_gap': '-', '_omit': []},
+                   'impl': str(got)[:500], 'spec': 'groupby(%r) / .d is not the nested first-occurrence partition of the matches' % (keys,), 'noshrink': True}
+    cov['groupby_nested_checks'] = gc
 
 
-LEVEL_TEXT = ('Machine-checked Coq theorems (41, all closed under the global context) over an executable model of cane.match / BioMatch.span / '
+LEVEL_TEXT = ('Machine-checked Coq theorems (49, all closed under the global context) over an executable model of cane.match / BioMatch.span / '
               'BioMatchList.groupby / BioSeq and BioBasket match/matchall. Word patterns (start, stop, "|"-separated words over letters and "."): every reported match has its span inside the sequence at a column >= start, its group is '
               'the text of the span (backward: of the span on the reverse complement = reversed per-character complement of the mirrored forward '
               'span), the group is an occurrence of a word of the pattern with gap characters tolerated between letters (degapped group = word '
@@ -1321,13 +1407,14 @@ LEVEL_TEXT = ('Machine-checked Coq theorems (41, all closed under the global con
               'is proved sound and complete w.r.t. a declarative relation, finditer leftmost-complete, and for plain prefix-free words without proper overlap (start, stop) every occurrence is reported exactly once; ordered alternation reports the first word that occurs; no word occurs outside the reported spans; span bounds; the start offset in forward coordinates for backward frames; empty results; rf forms count only through membership; basket wrappers element-wise. '
               'The gap argument is a character SET throughout (model, relation irel, residues, theorems): "[gap]*" is the class of the characters of the gap string and '
               '"nt in gap" is membership; the backward-count theorem uses a regenerated-table fact for the gap symbols "-", ".", "~". '
-              'Round 7, the pattern language (coq/model/C13_Rx.v, 11 theorems): simple regexes are syntax trees (literal characters, ".", classes and negated classes over letters, '
+              'Round 7, the pattern language (coq/model/C13_Rx.v, 14 theorems): simple regexes are syntax trees (literal characters, ".", classes and negated classes over letters, '
               'concatenation, ordered alternation, greedy * + ? on atoms that consume, capturing and non-capturing groups; the pattern must not match the empty string) with a printer to the pattern text and a backtracking matcher with CPython priorities. '
               'rx_rewrite_text_is_tree: the character-level gap rewriting of cane.py:217-222 applied to the text of a tree is the text of the tree-level rewriting (gap class between two neighbours of a concatenation that end / begin with a letter or "."), for all trees whose classes have no two neighbouring letters; '
               'rx_matcher_sound (only prefixes in the language of the pattern are reported); rx_gap_meaning (what the rewritten pattern matches is, degapped, matched by the original pattern, for patterns without ".", negated classes and gap characters; what the original matches is still matched), unbounded, by induction over trees and derivations; '
               'rx_matchall_sound (span, text, language membership, requested frame = residue count mod 3, both strands, for every tree), rx_order, rx_match_is_head (for any matcher), words_are_an_instance (the word model is the instance "ordered alternation of compiled words" of the generic pipeline); '
               'span_mirror (BioMatch.span mirroring is an involution that keeps bounds and length); groupby_partition (groupby("rf"): keys = distinct frames in first-occurrence order, groups = order-preserving sub-lists, none empty, every match in its group); '
-              'rf_decision_table (None / int / bool / fwd,bwd,both / other strings -> AssertionError / collections / non-iterables -> TypeError) and rf_strands. '
+              'rx_matcher_complete and rx_occurrence_covered (the tree matcher finds a match wherever a string of the language begins; no occurrence outside the reported spans), class_is_alternation; rf_decision_table (None / int / bool / fwd,bwd,both / other strings -> AssertionError / collections / non-iterables -> TypeError) and rf_strands. '
+              'GAP TRANSPARENCY (unbounded, 3 theorems): for plain words (start, stop, literal codons) gap_transparent_finditer: finditer of the gap-tolerant pattern on the gapped text, spans translated through the residue numbering, IS finditer of the plain pattern on the degapped text; gap_bijection: degapped text of a span = text of the translated span, rc and degap commute, the residue numberings of the two strands are mirror images; gap_transparent_matchall: matchall(gap=g) on the gapped sequence, translated, = matchall(gap=None) on the degapped sequence, both strands, every rf form, start 0 (also checked on the real code by a relational stream). END-TO-END COMPLETENESS (rebuilt from round 6): fwd_occurrence_reported / bwd_occurrence_reported: for start/stop-like word lists every occurrence at a column >= start whose residue-count frame is requested is an element of the result with its own extent, text and frame. '
               'The models are tied to sugar and to CPython re by differential testing on every run (the regex layer also on the pattern text handed to re, observed through BioMatch.re.pattern) plus first-principles oracles.')
 LEVEL_NOTE = ('Trusted: Coq kernel/vm_compute, tools/gen_data.py (COMPLEMENT tables, via the C05 model), the correspondence harness, CPython re/bisect/'
               'deepcopy. Modelled rather than verified: cane.match, BioMatch.span, BioMatchList.groupby (one key), BioSeq/BioBasket match(all). Domain: printable-ASCII upper-case '
@@ -1335,7 +1422,7 @@ LEVEL_NOTE = ('Trusted: Coq kernel/vm_compute, tools/gen_data.py (COMPLEMENT tab
               'PENDING FIX class_gap (build/pending_fixes/C13_class_gap.diff): with gap set (the default) the rewriting tears a class of two neighbouring letters apart ("A[TU]G" -> "A[T[-]*U]G", matches nothing); such calls are outside the domain (cls_gap_ok), with gap=None they are inside. '
               'The frame theorem is at full strength (no guard) since the dot_on_gap fix 69fc7dc (bisect_left); the former witnesses '
               'are in corpus/C13/dot_on_gap.json. Tested only (differential + first-principles oracle, not proved): equivalence of the two hand-written '
-              'matchers with CPython re (completeness of the regex-tree matcher is not proved, soundness is), that CPython parses the printed text as the tree, a BioSeq given as the pattern (cane.py:209-210, compared through its upper-cased text), independence '
-              'of earlier calls / shared objects / in-place edits (400 histories per quick run; the model is pure), groupby with other keys than "rf". rx_gap_meaning is one inclusion plus monotonicity: gap characters are tolerated only between neighbouring letters of the text, not inside a repetition ("AT+G" does not match "AT-TG"), which the theorem does not hide. Statement coverage of the '
+              'matchers with CPython re (soundness and completeness w.r.t. the declarative language are proved, agreement with CPython is tested), that CPython parses the printed text as the tree, a BioSeq given as the pattern (cane.py:209-210, compared through its upper-cased text), independence '
+              'of earlier calls / shared objects / in-place edits (400 histories per quick run; the model is pure), groupby with other keys than "rf" and with two keys / the .d alias (relational stream, first-principles nested partition), regexes outside the modelled subset (anchors, {m,n}, lazy quantifiers, ranges, escapes, look-ahead: relational stream against CPython re on both strands, gap None and gap set). rx_gap_meaning is one inclusion plus monotonicity: gap characters are tolerated only between neighbouring letters of the text, not inside a repetition ("AT+G" does not match "AT-TG"), which the theorem does not hide. Statement coverage of the '
               'modelled functions in the quick tier: see evidence. No axioms.')
 TECHNIQUE = 'Coq proof over an executable model + differential correspondence with /repo on every run'
